@@ -1,5 +1,5 @@
 #!/bin/bash
-# usage: tools/seed_confirm.sh C07  - confirms a sub-agent's seeded change in its scratch worktree:
+# DEVELOPMENT RECORD: confirms a sub-agent seeded change in its scratch worktree under /tmp/seed (removed after the round); kept to show what "confirmed" meant.
 # demo passes on the original, fails with the patch; touched packages' existing tests pass with the patch.
 id=$1; wt=/tmp/seed2/$id; out=/tmp/seed2/out/$id
 export GOFLAGS=-mod=mod GOPROXY=off
